@@ -20,7 +20,9 @@ import (
 	"encoding/binary"
 	"errors"
 	"fmt"
+	"io"
 	"math/rand"
+	"net"
 	"os"
 	"regexp"
 	"sort"
@@ -37,6 +39,39 @@ import (
 func init() { runners["c03"] = runC03 }
 
 var c03ErrCB = errors.New("c03 callback failure")
+
+// the failure of a callback comes in the classes of errors the library itself looks for on its own read and write paths
+// (a network timeout, a closed connection, the ends of a stream, context errors): whatever its class, a callback's error
+// ends the query and comes back from Do
+type c03TimeoutErr struct{}
+
+func (c03TimeoutErr) Error() string   { return "c03: i/o timeout" }
+func (c03TimeoutErr) Timeout() bool   { return true }
+func (c03TimeoutErr) Temporary() bool { return true }
+func (c03TimeoutErr) Unwrap() error   { return c03ErrCB }
+
+var c03ErrKind int
+
+func c03CallbackErr() error {
+	c03ErrKind++
+	switch c03ErrKind % 9 {
+	case 1:
+		return &net.OpError{Op: "write", Net: "tcp", Err: c03TimeoutErr{}}
+	case 2:
+		return fmt.Errorf("forwarding rows: %w: %w", c03ErrCB, context.DeadlineExceeded)
+	case 3:
+		return fmt.Errorf("sink: %w: %w", c03ErrCB, io.EOF)
+	case 4:
+		return fmt.Errorf("sink: %w: %w", c03ErrCB, io.ErrUnexpectedEOF)
+	case 5:
+		return fmt.Errorf("sink: %w: %w", c03ErrCB, os.ErrDeadlineExceeded)
+	case 6:
+		return fmt.Errorf("sink: %w: %w", c03ErrCB, context.Canceled)
+	case 7:
+		return &net.OpError{Op: "write", Net: "tcp", Err: fmt.Errorf("%w: %w", c03ErrCB, net.ErrClosed)}
+	}
+	return c03ErrCB
+}
 
 var c03Revs = []int{54460, 54460, 54460, 54459, 54455, 54454, 54453, 54451, 54450, 54421, 54420, 54419, 54406, 54058, 51903, 51902, 50264, 50263}
 
@@ -877,7 +912,7 @@ func c03Do(cs *c03Case) (run *c03Run) {
 		i := run.counts[k]
 		run.counts[k]++
 		if cs.hs[k].fail == i {
-			return c03ErrCB
+			return c03CallbackErr()
 		}
 		return nil
 	}
